@@ -78,13 +78,13 @@ theorem natSys_lawful : Lawful natSys :=
 def natOps (proto : Proto) (resume : Bool) (n : Nat) : List (Op Path) :=
   preOps resume ++ (loop natSys proto n 0).1
 
-example : Reach natSys .atomic 0 3 (crash FS.empty (natOps .atomic false 3) 21) :=
-  Reach.killed _ false _ 3 21 Reach.fresh (by simp [run, load, natSys, natOps, loop_snd, iter])
+example : Reach natSys .atomic 0 3 (crash FS.empty (natOps .atomic false 3) 25) :=
+  Reach.killed _ false _ 3 25 Reach.fresh (by simp [run, load, natSys, natOps, loop_snd, iter])
 
-/-- in that directory (kill after 21 operations = 2 bytes of the second pickle have reached last.pkl.tmp) last.pkl still
+/-- in that directory (kill after 25 operations = 2 bytes of the second pickle have reached last.pkl.tmp) last.pkl still
     holds the complete first pickle, and the partial temp file is there -/
-example : crash FS.empty (natOps .atomic false 3) 21 .last = some [1, 1, 1, 255]
-    ∧ crash FS.empty (natOps .atomic false 3) 21 .tmp = some [2, 2] := by decide
+example : crash FS.empty (natOps .atomic false 3) 25 .last = some [1, 1, 1, 255]
+    ∧ crash FS.empty (natOps .atomic false 3) 25 .tmp = some [2, 2] := by decide
 
 /-- **The protocol as found in /repo is not crash safe** (documented witness, replayed on the real code by the check):
     for every lawful system whose pickles are non-empty and self-delimiting and every n ≥ 1 there is a crash point —
@@ -96,7 +96,7 @@ theorem inplace_not_crash_safe (sys : Sys S) (hpf : PrefixFree sys) (hne : ∀ s
   obtain ⟨m, rfl⟩ : ∃ m, n = m + 1 := ⟨n - 1, by omega⟩
   have hload : load sys r0 s0 (FS.empty : FS Path) = .ok s0 := by cases r0 <;> simp [load, FS.empty]
   let A : List (Op Path) := preOps r0 ++ appendFile Path.sanity (sys.msg (sys.step s0)) ++ [Op.openW .last]
-  let B : List (Op Path) := ((sys.enc (sys.step s0)).map (Op.append .last) ++ [Op.close .last]) ++
+  let B : List (Op Path) := Op.wbuf .last :: ((sys.enc (sys.step s0)).map (Op.append .last) ++ [Op.close .last]) ++
     (loop sys .inplace m (sys.step s0)).1
   have hops : preOps r0 ++ (loop sys .inplace (m + 1 - sys.nit s0) s0).1 = A ++ B := by
     simp [A, B, h0, loop, iterOps, savePkl, writeFile, List.append_assoc]
@@ -109,19 +109,20 @@ theorem inplace_not_crash_safe (sys : Sys S) (hpf : PrefixFree sys) (hne : ∀ s
     have hdec : sys.dec [] = none := hpf (sys.step s0) [] List.nil_prefix (fun h => hne _ h.symm)
     simp [run, load, hlast, hdec]
 
-/-- the same witness, concretely, by evaluation (2 iterations, state = counter): killed after 12 operations the second
-    save has truncated last.pkl; killed after 14, two of its four bytes are there; `resume=True` cannot load either. -/
+/-- the same witness, concretely, by evaluation (2 iterations, state = counter): killed after 9 operations the first
+    save has truncated last.pkl (also after 10: the data is still in the process' buffer); killed after 12, two of its four
+    bytes are there; the same for the second save after 21 and 24 operations; `resume=True` cannot load either. -/
 def resumeFails (proto : Proto) (n k : Nat) : Bool :=
   match load natSys true 0 (crash FS.empty (natOps proto false n) k) with
   | .error _ => true
   | .ok _ => false
 
-theorem inplace_witness : resumeFails .inplace 2 8 = true ∧ resumeFails .inplace 2 10 = true
-    ∧ resumeFails .inplace 2 19 = true ∧ resumeFails .inplace 2 21 = true := by decide
+theorem inplace_witness : resumeFails .inplace 2 9 = true ∧ resumeFails .inplace 2 12 = true
+    ∧ resumeFails .inplace 2 21 = true ∧ resumeFails .inplace 2 24 = true := by decide
 
 /-- and on the same 25+ crash points the repaired protocol never fails (a *test* of the model on one instance — the
     theorem is `never_unresumable`) -/
-example : (List.range 40).all (fun k => !resumeFails .atomic 3 k) = true := by decide
+example : (List.range 50).all (fun k => !resumeFails .atomic 3 k) = true := by decide
 
 /-- **which crash points of the protocol as found are fatal** (DESIGN: `resume_possible_iff`): a run from the empty
     directory killed after any number of byte-granular operations leaves last.pkl absent or holding a prefix of the pickle of
